@@ -15,6 +15,17 @@ CHECKS = {
          "Bounded: exhaustive <=3 junctions/<=2 branches in the model, sampled nets up to 4 junctions/4 branches/2 pipe-valves for replay. "
          "Hydraulic connectivity only (thermal pattern under C10).",
     technique="TLA+ spec (PPConn/GenConn) model-checked with TLC + TLC-generated nets replayed into pandapipes + trace validation (Trace_PF)"),
+ "C14": dict(
+    level="model_checking",
+    text="The three option layers are a TLA+ state machine (set_user_pf_options reset/update, call); TLC checks precedence, "
+         "iter expansion, couplings, domain and call-purity exhaustively for every key group, and every distinct reachable "
+         "<user layer, options in force> state plus seeded multi-call histories are replayed into init_options and validated "
+         "event by event by the trace specification Trace_Options (resolved options, stored user options, defaults digest).",
+    design_ref="DESIGN.md 5 C14",
+    note="Trusted: value-id <-> concrete value maps in harness/c14.py; documented defaults pinned to the baseline default_options "
+         "(the init_options docstring disagrees with them, see DESIGN F17). Quick replays a seeded 8000-sample of the exhaustive "
+         "2-op histories, thorough all of them. Missing numba simulated via pipeflow_setup.numba_installed.",
+    technique="TLA+ spec (PPOptions/MC_Options) model-checked with TLC + TLC-generated call histories replayed into init_options + trace validation (Trace_Options)"),
 }
 NA_REASON = "check not built yet in this round (work in progress; see DESIGN.md section 5 for the planned decision procedure)"
 
